@@ -771,6 +771,13 @@ def run(ctx):
         gt = dict(gc)
         gt["T1"] = [float(v) for v in T1]
         jobs.append(("cross-T(r)", 0, c, gt, CrossJob, (gc, T1, batch)))
+    # a step in which the free dofs are already in equilibrium at the starting guess: Poisson's ratio 0 (a
+    # legal boundary value), no pressure, no temperature change, pure axial extension -- the reported force
+    # and stiffness must still be those of the step (1D/2D and the single-layer 3-D mesh included)
+    for c, nz in enumerate((3, 2)):
+        gq = gen_case(rng, dict(nr=4, nt=12, nz=nz))
+        gq.update(nu=0.0, p=0.0, dT=0.0, Tbase=[0.0, 300.0][c], direct=(c == 0))
+        jobs.append(("cross-nu0-extension", 0, 100 + c, gq, CrossJob, (gq, None, batch)))
     built = []
     for kind, ndim, c, g, cls, args in jobs:
         try:
